@@ -743,7 +743,8 @@ def rule_runtime_support(rep: Report, repo: Repo):
               f"{got}; this is what lets `start = 0` pin an order and product_by_order skip absent terms", repo.loc("series", cont))
     gi = repo.find("series::BlockSeries::__getitem__", R)
     rr = [n for n in ast.walk(gi) if isinstance(n, ast.Return) and isinstance(n.value, ast.Call) and (call_name(n.value) or "").endswith("masked_where")]
-    ok = len(rr) == 1 and [norm(a_) for a_ in rr[0].value.args] == ["_mask(result)", "result"]
+    ok = len(rr) == 1 and len(rr[0].value.args) == 2 and isinstance(rr[0].value.args[0], ast.Call) and call_name(rr[0].value.args[0]) == "_mask" \
+        and len(rr[0].value.args[0].args) == 1 and norm(rr[0].value.args[0].args[0]) == norm(rr[0].value.args[1])  # masked_where(_mask(X), X)
     # _mask = np.vectorize(<entry is zero>, otypes=[bool]): the predicate may be a lambda or a module-level function
     mk = [n for n in tree.body if isinstance(n, ast.Assign) and norm(n.targets[0]) == "_mask"]
     pred_ok, pred_txt = False, "missing"
@@ -1011,10 +1012,14 @@ def rule_exec_scope(rep: Report, repo: Repo):
         ok = v is not None and norm(v) == nm and (origin is None or _import_origin(tree, nm) == origin)
         rep.check(ok, R, f"algorithm_parsing::series_computation exec scope binds `{nm}` to the package's own `{nm}`",
                   norm(v) if v is not None else "missing", loc(es[0]))
-    for nm in ("series", "linear_operator_series", "del_"):
+    # `series` / `linear_operator_series` are the two dictionaries the function returns, in this order; `del_` is the local deleter
+    rets = [n for n in own_nodes(sc) if isinstance(n, ast.Return) and isinstance(n.value, ast.Tuple) and len(n.value.elts) == 2]
+    if len(rets) != 1:
+        raise AnalysisError(R, "series_computation: does not return one pair (series, linear-operator series)")
+    for nm, want in (("series", norm(rets[0].value.elts[0])), ("linear_operator_series", norm(rets[0].value.elts[1])), ("del_", "del_")):
         v = dd.get(nm)
-        rep.check(v is not None and norm(v) == nm, R, f"algorithm_parsing::series_computation exec scope binds `{nm}` to the local `{nm}`",
-                  norm(v) if v is not None else "missing", loc(es[0]))
+        rep.check(v is not None and norm(v) == want, R, f"algorithm_parsing::series_computation exec scope binds `{nm}` to the local `{nm}`",
+                  f"{norm(v) if v is not None else 'missing'} (the function returns ({norm(rets[0].value.elts[0])}, {norm(rets[0].value.elts[1])}))", loc(es[0]))
     # Dagger
     v = dd.get("Dagger")
     if not isinstance(v, ast.Name):
